@@ -15,6 +15,8 @@
 package searcher
 
 import (
+	"bytes"
+
 	"github.com/blugelabs/bluge/search"
 )
 
@@ -22,6 +24,16 @@ func NewTermRangeSearcher(indexReader search.Reader,
 	min, max []byte, inclusiveMin, inclusiveMax bool, field string,
 	boost float64, scorer search.Scorer, compScorer search.CompositeScorer,
 	options search.SearcherOptions) (search.Searcher, error) {
+	// an interval whose start lies beyond its end, or which is a single
+	// term with an excluded end, selects nothing (the dictionary iterator
+	// would still position on a term equal to the start)
+	if min != nil && max != nil {
+		cmp := bytes.Compare(min, max)
+		if cmp > 0 || (cmp == 0 && !(inclusiveMin && inclusiveMax)) {
+			return NewMatchNoneSearcher(indexReader, options)
+		}
+	}
+
 	if min == nil {
 		min = []byte{}
 	}
